@@ -65,6 +65,18 @@ package hcldec
 //@ nosafety
 //@ ensures isKnownVal(ret)
 
+// ---- attributes (unit U17c) ----
+// The value decoded for an attribute conforms to the attribute's type constraint on every path:
+// absent (null of the type), conversion failure (unknown of the type) and success (the converted
+// value). Types with a custom expression decoder are outside this contract.
+// verif:func (*AttrSpec).impliedType
+//@ pure
+//@ ensures ret == s.Type
+// verif:func (*AttrSpec).decode
+//@ nosafety
+//@ requires content != nil
+//@ ensures conforms: !hasCustomDecoder(old(s.Type)) ==> conformsTy(typeOf(ret0), woad(old(s.Type)))
+
 // ---- block lists and sets (unit U17b) ----
 // verif:func (*BlockListSpec).impliedType
 //@ requires s.Nested != nil
